@@ -510,7 +510,7 @@ Section Main.
     end.
   Proof.
     intros S HR. destruct st as [m n]. pose proof HR as [Rm Rn]. cbn [fst snd] in Rm, Rn.
-    destruct op as [s|share b ref|a|a w v|a|a mu|sl mu]; cbn [Heap.h_step l1_of Heap.l1_step].
+    destruct op as [s|share b ref|a|a w v|a|a mu|sl mu|a b]; cbn [Heap.h_step l1_of Heap.l1_step].
     - (* parse *)
       unfold h_parse. destruct (Parse idna_raw c s) as [u| | | |]; try reflexivity; try (eexists; split; [reflexivity|split; assumption]).
       destruct (new_url_spec h u S) as (o & E & A & Er & En). destruct (new_url h u) as [h' r]. cbn [fst snd] in *.
@@ -583,6 +583,40 @@ Section Main.
           -- intros b. rewrite F. apply Rm.
           -- rewrite Eh. exact Rn.
       + unfold h_sp_mutate. rewrite Hs. reflexivity.
+    - (* a.SetSearchParams(b.SearchParams()): touch b, touch a, then a mutation of a's own object *)
+      unfold h_adopt. rewrite <- Rm. destruct (abs h b) as [v|] eqn:Ab.
+      + destruct (abs_some_live h b v Ab) as (ob & Hb).
+        destruct (h_searchparams_spec c h b ob v S Hb Ab) as (h1 & slb & ob1 & E1 & I1 & A1 & Eob1 & _ & sb & Hsb & Owb & Psb).
+        rewrite E1.
+        pose proof (inplace_Sep h h1 b ob ob1 S I1) as S1.
+        pose proof I1 as (_ & Hb1 & _).
+        destruct (ensure_sp c v) as [v' l]. cbn [fst snd] in A1, Psb. cbv zeta.
+        assert (R1 : R h1 (put m b (Some v'), n)) by exact (R_put_inplace h _ b ob ob1 m n _ S HR I1 A1).
+        pose proof R1 as [Rm1 _]. cbn [fst] in Rm1. rewrite <- Rm1.
+        destruct (abs h1 a) as [u|] eqn:Aa.
+        * destruct (abs_some_live h1 a u Aa) as (oa & Ha).
+          destruct (h_searchparams_spec c h1 a oa u S1 Ha Aa) as (h2 & sla & oa2 & E2 & I2 & A2 & Eoa2 & K2 & sa & Hsa & Owa & Psa).
+          rewrite E2.
+          pose proof (inplace_Sep h1 h2 a oa oa2 S1 I2) as S2.
+          (* b's object is still there with b's list: it is a's own object (a = b) or another Url's *)
+          assert (Hsb2 : rd (hs h2) slb = Some sb).
+          { destruct (Nat.eq_dec b a) as [Eab|Nab].
+            - subst b. rewrite Hb1 in Ha. injection Ha as <-. destruct (K2 slb Eob1) as [_ ->]. exact Hsb.
+            - rewrite (inplace_other_sp h1 h2 a oa oa2 b ob1 slb S1 I2 Nab Hb1 Eob1). exact Hsb. }
+          rewrite Hsb2.
+          destruct (h_sp_mutate_spec c (fun _ => s_params sb) h2 sla sa a S2 Hsa Owa) as (oa3 & u3 & h' & oa' & Ha3 & Au3 & _ & E3 & I3 & A3 & _).
+          rewrite E3. rewrite A2 in Au3. injection Au3 as <-. rewrite Psb in A3.
+          eexists. split; [reflexivity|].
+          assert (R2 : R h2 (put (put m b (Some v')) a (Some (fst (ensure_sp c u))), n))
+            by exact (R_put_inplace h1 _ a oa oa2 _ n _ S1 R1 I2 A2).
+          split.
+          -- pose proof (R_put_inplace h2 h' a oa3 oa' _ n _ S2 R2 I3 A3) as [Q1 Q2]. split; [|exact Q2].
+             intros x. rewrite Q1. cbn [fst]. unfold put. destruct (Nat.eqb x a); reflexivity.
+          -- exact (inplace_Sep h2 _ a oa3 oa' S2 I3).
+        * unfold h_searchparams. destruct (rd (hu h1) a) as [oa|] eqn:Ha; [|reflexivity].
+          destruct (abs_live h1 a oa S1 Ha) as (u & Hu). congruence.
+      + unfold h_searchparams. destruct (rd (hu h) b) as [ob|] eqn:Hb; [|reflexivity].
+        destruct (abs_live h b ob S Hb) as (u & Hu). congruence.
   Qed.
 
   (* ----- Theorem 1: every operation preserves the invariant ----- *)
@@ -599,10 +633,11 @@ Section Main.
       | L1Parse _ | L1Clone _ => b <> n
       | L1Resolve _ _ => b <> Datatypes.S n
       | L1Set a _ _ | L1Touch a | L1Sp a _ => b <> a
+      | L1Adopt a a2 => b <> a /\ b <> a2
       | L1Nop | L1Stop => True
       end -> m' b = m b.
   Proof.
-    intros E b Hb. destruct o; cbn [Heap.l1_step] in E.
+    intros E b Hb. destruct o as [s|b0 ref|a|a w v|a|a m0|a a2| |]; cbn [Heap.l1_step] in E.
     - destruct (Parse idna_raw c s); try discriminate; injection E as <- <-; try reflexivity.
       unfold put. apply Nat.eqb_neq in Hb. rewrite Hb. reflexivity.
     - destruct (m b0); [|discriminate].
@@ -614,18 +649,78 @@ Section Main.
     - destruct (m a); [|discriminate]. injection E as <- <-. unfold put. apply Nat.eqb_neq in Hb. rewrite Hb. reflexivity.
     - destruct (m a); [|discriminate]. destruct (ensure_sp c u). injection E as <- <-.
       unfold put. apply Nat.eqb_neq in Hb. rewrite Hb. reflexivity.
+    - destruct (m a2) as [v|]; [|discriminate]. destruct (ensure_sp c v) as [v' l]. cbv zeta in E.
+      destruct (put m a2 (Some v') a); [|discriminate]. injection E as <- <-.
+      destruct Hb as [H1 H2]. unfold put. apply Nat.eqb_neq in H1, H2. rewrite H1, H2. reflexivity.
     - injection E as <- <-. reflexivity.
     - discriminate.
   Qed.
 
-  Theorem frame h op h' b : Sep h -> h_step h op = Some h' -> target h op <> Some b -> abs h' b = abs h b.
+  (* (HAdopt a b' has a second handle it may write: its ARGUMENT b', whose SearchParams object is created if
+     it does not exist yet; hence the premise on arg_of, vacuous for every other operation.  What happens to
+     the argument is adopt_spec below: exactly what HTouch b' does.) *)
+  Theorem frame h op h' b : Sep h -> h_step h op = Some h' -> target h op <> Some b -> arg_of op <> Some b ->
+    abs h' b = abs h b.
   Proof.
-    intros S E T. assert (HR : R h (abs h, next (hu h))) by (split; intros; reflexivity).
+    intros S E T TA. assert (HR : R h (abs h, next (hu h))) by (split; intros; reflexivity).
     pose proof (step_sim h _ op S HR) as X. rewrite E in X. destruct X as ([m' n'] & L & [Rm _] & _).
     rewrite Rm. cbn [fst]. apply (l1_step_frame _ _ _ _ _ L).
-    destruct op; cbn [l1_of target] in *; try (intros ->; apply T; reflexivity).
-    destruct (rd (hs h) sl) as [s|]; [|exact I]. destruct (s_owner s) as [a|]; [|exact I].
-    intros ->. apply T; reflexivity.
+    destruct op as [s|share b0 ref|a|a w v|a|a mu|sl mu|a a2]; cbn [l1_of target arg_of] in *;
+      try (intros ->; apply T; reflexivity).
+    - destruct (rd (hs h) sl) as [s|]; [|exact I]. destruct (s_owner s) as [a|]; [|exact I].
+      intros ->. apply T; reflexivity.
+    - split; intros ->; [apply T|apply TA]; reflexivity.
+  Qed.
+
+  (* ----- SetSearchParams (the repaired operation) ----- *)
+  Lemma ensure_sp_fst_idem u : fst (ensure_sp c (fst (ensure_sp c u))) = fst (ensure_sp c u).
+  Proof. unfold ensure_sp. destruct (u_sp u) as [l|] eqn:E; cbn [fst]; [rewrite E; reflexivity|reflexivity]. Qed.
+
+  (* a.SetSearchParams(b.SearchParams()) on the object graph is the L1 operation: a holds (a copy of) b's
+     list and the query it serializes to, b is as b.SearchParams() alone leaves it, every other Url is
+     untouched, the heap stays separated.  Also for a = b. *)
+  Theorem adopt_spec h a b h' : Sep h -> h_step h (HAdopt a b) = Some h' ->
+    exists u v, abs h a = Some u /\ abs h b = Some v /\
+      abs h' a = Some (sp_update c (fst (ensure_sp c u)) (snd (ensure_sp c v))) /\
+      (b <> a -> abs h' b = Some (fst (ensure_sp c v))) /\
+      (forall x, x <> a -> x <> b -> abs h' x = abs h x) /\ Sep h'.
+  Proof.
+    intros S E. assert (HR : R h (abs h, next (hu h))) by (split; intros; reflexivity).
+    pose proof (step_sim h _ (HAdopt a b) S HR) as X. rewrite E in X. destruct X as ([m' n'] & L & [Rm _] & S').
+    cbn [fst] in Rm. cbn [l1_of Heap.l1_step] in L.
+    destruct (abs h b) as [v|] eqn:Ab; [|discriminate].
+    pose proof (ensure_sp_fst_idem v) as Idem.
+    destruct (ensure_sp c v) as [v' l] eqn:Ev. cbv zeta in L. cbn [fst snd] in *.
+    destruct (put (abs h) b (Some v') a) as [u0|] eqn:Pa; [|discriminate]. injection L as <- <-.
+    unfold put in Pa. destruct (Nat.eqb_spec a b) as [Eab|Nab].
+    - subst b. injection Pa as <-. exists v, v. rewrite Ev. cbn [fst snd].
+      split; [exact Ab|]. split; [reflexivity|]. split; [|split; [|split]].
+      + rewrite Rm. unfold put. rewrite Nat.eqb_refl. rewrite Idem. reflexivity.
+      + intros N; elim N; reflexivity.
+      + intros x N1 _. rewrite Rm. unfold put. apply Nat.eqb_neq in N1. rewrite N1. reflexivity.
+      + exact S'.
+    - exists u0, v. rewrite Ev. cbn [fst snd]. split; [exact Pa|]. split; [reflexivity|]. split; [|split; [|split]].
+      + rewrite Rm. unfold put. rewrite Nat.eqb_refl. reflexivity.
+      + intros N. rewrite Rm. unfold put. apply Nat.eqb_neq in N. rewrite N, Nat.eqb_refl. reflexivity.
+      + intros x N1 N2. rewrite Rm. unfold put. apply Nat.eqb_neq in N1, N2. rewrite N1, N2. reflexivity.
+      + exact S'.
+  Qed.
+
+  (* the L1 step it refines IS the step of the two-slot histories (Obs.hstep, the value model the
+     differential harness runs against the Go code) when the two handles are the two slots *)
+  Definition slot_loc (slot : bool) : loc := if slot then 1%nat else 0%nat.
+  Theorem l1_adopt_is_OSpAdopt m n slot st' :
+    l1_step (m, n) (L1Adopt (slot_loc slot) (slot_loc (negb slot))) = Some st' ->
+    fst (hstep idna_raw c (m 0%nat, m 1%nat) (OSpAdopt slot)) = (fst st' 0%nat, fst st' 1%nat) /\ snd st' = n.
+  Proof.
+    cbn [Heap.l1_step hstep]. unfold Obs.get, Obs.put.
+    destruct slot; cbn [slot_loc negb fst snd].
+    - destruct (m 0%nat) as [v|]; [|discriminate]. destruct (ensure_sp c v) as [v' l]. cbv zeta.
+      unfold put at 1. cbn [Nat.eqb]. destruct (m 1%nat) as [u|]; [|discriminate].
+      intros E. injection E as <-. cbn [fst snd]. unfold put. cbn [Nat.eqb]. split; reflexivity.
+    - destruct (m 1%nat) as [v|]; [|discriminate]. destruct (ensure_sp c v) as [v' l]. cbv zeta.
+      unfold put at 1. cbn [Nat.eqb]. destruct (m 0%nat) as [u|]; [|discriminate].
+      intros E. injection E as <-. cbn [fst snd]. unfold put. cbn [Nat.eqb]. split; reflexivity.
   Qed.
 End Main.
 
@@ -741,13 +836,14 @@ Section Named.
 
   (* a handle no operation of the sequence targets keeps its value *)
   Theorem run_frame b ops : forall h h', Sep h -> h_run h ops = Some h' ->
-    (forall h1 o, In o ops -> target h1 o <> Some b) -> abs h' b = abs h b.
+    (forall h1 o, In o ops -> target h1 o <> Some b /\ arg_of o <> Some b) -> abs h' b = abs h b.
   Proof.
     induction ops as [|o rest IH]; intros h h' S E T; cbn [Heap.h_run] in E.
     - injection E as <-. reflexivity.
     - destruct (h_step h o) as [h1|] eqn:E1; [|discriminate].
       rewrite (IH h1 h' (Sep_preserved idna_raw c h o h1 S E1) E (fun h2 o2 I => T h2 o2 (or_intror I))).
-      exact (frame idna_raw c h o h1 b S E1 (T h o (or_introl eq_refl))).
+      destruct (T h o (or_introl eq_refl)) as [T1 T2].
+      exact (frame idna_raw c h o h1 b S E1 T1 T2).
   Qed.
 
   (* without operations through old SearchParams handles the L1 run is independent of the heap *)
@@ -1175,7 +1271,7 @@ Section Handles.
     (forall a, rd (hu h) a <> None -> rd (hu h') a <> None) /\
     (forall a sl, sp_of h a = Some sl -> sp_of h' a = Some sl).
   Proof.
-    intros S E. destruct op as [s|share b ref|a|a w v|a|a mu|sl mu]; cbn [Heap.h_step] in E.
+    intros S E. destruct op as [s|share b ref|a|a w v|a|a mu|sl mu|a b]; cbn [Heap.h_step] in E.
     - unfold h_parse in E. destruct (Parse idna_raw c s) as [u| | | |]; try discriminate; try (injection E as <-; split; auto).
       destruct (new_url_spec h u S) as (o & X & _). destruct (new_url h u) as [h1 r]. cbn [fst snd] in X. injection E as <-.
       split; [intros a; exact (extends_live h h1 r o a S X)|intros a sl; exact (extends_sp_of h h1 r o a sl S X)].
@@ -1228,6 +1324,30 @@ Section Handles.
         intros x sl0. apply (inplace_sp_of h _ a o o' x sl0 I). intros _. congruence.
       + destruct (h_sp_mutate_orphan c (spmut_fun mu) h sl s S Hs Ow) as (h1 & E1 & _ & Eh & _).
         rewrite E in E1. injection E1 as <-. unfold sp_of. rewrite Eh. split; auto.
+    - (* SetSearchParams: three in-place steps (touch b, touch a, mutate a's own object); no pointer is stored *)
+      unfold h_adopt in E.
+      destruct (h_searchparams c h b) as [[h1 slb]|] eqn:C1; [|discriminate].
+      pose proof C1 as C0. unfold h_searchparams in C0. destruct (rd (hu h) b) as [ob|] eqn:Hb; [|discriminate]. clear C0.
+      destruct (abs_live h b ob S Hb) as (v & Ab).
+      destruct (h_searchparams_spec c h b ob v S Hb Ab) as (h1' & slb' & ob1 & E1 & I1 & _ & Eob1 & K1 & _).
+      rewrite C1 in E1. injection E1 as <- <-.
+      pose proof (inplace_Sep h h1 b ob ob1 S I1) as S1.
+      destruct (h_searchparams c h1 a) as [[h2 sla]|] eqn:C2; [|discriminate].
+      pose proof C2 as C0. unfold h_searchparams in C0. destruct (rd (hu h1) a) as [oa|] eqn:Ha; [|discriminate]. clear C0.
+      destruct (abs_live h1 a oa S1 Ha) as (u & Aa).
+      destruct (h_searchparams_spec c h1 a oa u S1 Ha Aa) as (h2' & sla' & oa2 & E2 & I2 & _ & Eoa2 & K2 & sa & Hsa & Owa & _).
+      rewrite C2 in E2. injection E2 as <- <-.
+      pose proof (inplace_Sep h1 h2 a oa oa2 S1 I2) as S2.
+      destruct (rd (hs h2) slb) as [sb|]; [|discriminate].
+      destruct (h_sp_mutate_spec c (fun _ => s_params sb) h2 sla sa a S2 Hsa Owa) as (oa3 & u3 & h3 & oa' & Ha3 & _ & _ & E3 & I3 & _ & Eo3 & Eo2).
+      rewrite E in E3. injection E3 as <-.
+      split.
+      + intros x L. exact (inplace_live h2 h' a oa3 oa' x I3 (inplace_live h1 h2 a oa oa2 x I2 (inplace_live h h1 b ob ob1 x I1 L))).
+      + intros x sl0 L. apply (inplace_sp_of h2 h' a oa3 oa' x sl0 I3); [intros _; congruence|].
+        apply (inplace_sp_of h1 h2 a oa oa2 x sl0 I2).
+        { intros N. destruct (o_sp oa) as [sl1|] eqn:Eo; [|elim N; reflexivity]. destruct (K2 sl1 eq_refl) as [-> _]. exact Eoa2. }
+        apply (inplace_sp_of h h1 b ob ob1 x sl0 I1); [|exact L].
+        intros N. destruct (o_sp ob) as [sl1|] eqn:Eo; [|elim N; reflexivity]. destruct (K1 sl1 eq_refl) as [-> _]. exact Eob1.
   Qed.
 
   (* ----- Theorem 5: a SearchParams handle obtained from u stays u's handle, whatever happens later ----- *)
@@ -1470,8 +1590,8 @@ Proof.
   - split; [|split]; vm_compute; reflexivity.
 Qed.
 
-(* v.SetSearchParams(u.SearchParams()) does not set the owner: v.SearchParams().Append("b","2") then rewrites
-   u's query (and the list both share), v's query is stale *)
+(* v.SetSearchParams(u.SearchParams()) as it was before 44c5d62 (D26, see mutant_D26 below) does not set the
+   owner: v.SearchParams().Append("b","2") then rewrites u's query (and the list both share), v's query is stale *)
 Definition h_2 : heap := the (run0 [HParse in_h; HParse in_g; HTouch 0%nat]).
 Definition h_sx : heap := the (h_set_searchparams default_cfg h_2 1%nat 0%nat).
 Definition h_sx' : heap := the (h_sp_via default_cfg app_b2 h_sx 1%nat).
@@ -1485,6 +1605,89 @@ Proof.
   - intros S. assert (E : sp_owner_ok h_sx 1%nat = false) by (vm_compute; reflexivity).
     rewrite (Sep_sp_check h_sx 1%nat S) in E. discriminate E.
   - split; [|split]; vm_compute; reflexivity.
+Qed.
+
+Ltac conj_vm := repeat (match goal with |- _ /\ _ => split end); vm_compute; reflexivity.
+(* ----- D26: SetSearchParams as found stores the other Url's live object; as repaired it keeps separation ----- *)
+(* "http://a/p?x=1" and "http://b/q?y=2" *)
+Definition in_xa : str := [104;116;116;112;58;47;47;97;47;112;63;120;61;49].
+Definition in_yb : str := [104;116;116;112;58;47;47;98;47;113;63;121;61;50].
+Definition h_ab : heap := the (run0 [HParse in_xa; HParse in_yb]).
+Lemma h_ab_run : run0 [HParse in_xa; HParse in_yb] = Some h_ab.
+Proof. vm_compute. reflexivity. Qed.
+Lemma Sep_ab : Sep h_ab.
+Proof. exact (run_Sep idn default_cfg _ empty_heap h_ab Sep_empty h_ab_run). Qed.
+
+(* the code as found: url0.SetSearchParams(url1.SearchParams()) *)
+Definition h_d26 : heap := the (h_adopt_D26 default_cfg h_ab 0%nat 1%nat).
+(* ... followed by url0.SearchParams().Append("b","2") *)
+Definition h_d26' : heap := the (h_sp_via default_cfg app_b2 h_d26 0%nat).
+Theorem mutant_D26 :
+  Sep h_ab /\ h_adopt_D26 default_cfg h_ab 0%nat 1%nat = Some h_d26 /\
+  ~ Sep h_d26 /\
+  sp_of h_d26 0%nat = Some 0%nat /\ sp_of h_d26 1%nat = Some 0%nat /\      (* two Urls point to ONE SearchParams object *)
+  option_map s_owner (rd (hs h_d26) 0%nat) = Some (Some 1%nat) /\          (* ... which is owned by Url 1 *)
+  (* C12 fails on Url 0: its query is still "x=1" while its list is [("y","2")] *)
+  q_of h_d26 0%nat = Some (Some [120;61;49]) /\
+  sp_val h_d26 0%nat = Some (Some [([121], [50])]) /\
+  (* C13 fails: an append through Url 0's handle rewrites Url 1's query (and list), not Url 0's *)
+  h_sp_via default_cfg app_b2 h_d26 0%nat = Some h_d26' /\
+  q_of h_d26 1%nat = Some (Some [121;61;50]) /\
+  q_of h_d26' 1%nat = Some (Some [121;61;50;38;98;61;50]) /\
+  sp_val h_d26' 1%nat = Some (Some [([121], [50]); ([98], [50])]) /\
+  q_of h_d26' 0%nat = Some (Some [120;61;49]).
+Proof.
+  split; [exact Sep_ab|]. split; [vm_compute; reflexivity|]. split.
+  - intros S. assert (E : sp_owner_ok h_d26 0%nat = false) by (vm_compute; reflexivity).
+    rewrite (Sep_sp_check h_d26 0%nat S) in E. discriminate E.
+  - conj_vm.
+Qed.
+
+(* the repaired operation on the same heap: Url 0 gets its own object holding a copy of the list and its query
+   follows; the later append through Url 0 stays in Url 0 *)
+Definition h_fix : heap := the (h_step idn default_cfg h_ab (HAdopt 0%nat 1%nat)).
+Definition h_fix' : heap := the (h_sp_via default_cfg app_b2 h_fix 0%nat).
+Theorem adopt_repaired_ex :
+  h_step idn default_cfg h_ab (HAdopt 0%nat 1%nat) = Some h_fix /\ Sep h_fix /\
+  sp_of h_fix 0%nat = Some 1%nat /\ sp_of h_fix 1%nat = Some 0%nat /\      (* two objects *)
+  option_map s_owner (rd (hs h_fix) 1%nat) = Some (Some 0%nat) /\
+  option_map s_owner (rd (hs h_fix) 0%nat) = Some (Some 1%nat) /\
+  q_of h_fix 0%nat = Some (Some [121;61;50]) /\ sp_val h_fix 0%nat = Some (Some [([121], [50])]) /\
+  q_of h_fix 1%nat = Some (Some [121;61;50]) /\ sp_val h_fix 1%nat = Some (Some [([121], [50])]) /\
+  h_sp_via default_cfg app_b2 h_fix 0%nat = Some h_fix' /\
+  q_of h_fix' 0%nat = Some (Some [121;61;50;38;98;61;50]) /\
+  q_of h_fix' 1%nat = Some (Some [121;61;50]) /\ sp_val h_fix' 1%nat = Some (Some [([121], [50])]).
+Proof.
+  assert (E : h_step idn default_cfg h_ab (HAdopt 0%nat 1%nat) = Some h_fix) by (vm_compute; reflexivity).
+  split; [exact E|]. split; [exact (Sep_preserved idn default_cfg h_ab _ h_fix Sep_ab E)|].
+  conj_vm.
+Qed.
+
+(* a history with SetSearchParams in every position: onto a Url that already handed out its handle (0), from a Url
+   without an object (1), onto itself (1 1), back (1 0), onto a clone (2), then a mutation through the OLD handle of 0 *)
+Definition ops_ad : list hop :=
+  [HParse in_xa; HParse in_yb; HTouch 0%nat; HSp 0%nat (MAppend [99] [51]); HAdopt 0%nat 1%nat; HAdopt 1%nat 1%nat;
+   HSp 1%nat (MAppend [98] [50]); HAdopt 1%nat 0%nat; HClone 1%nat; HSp 1%nat (MDelete [121]); HAdopt 2%nat 1%nat;
+   HSpVia 0%nat (MAppend [100] [52])].
+Definition h_ad : heap := the (run0 ops_ad).
+Lemma h_ad_run : run0 ops_ad = Some h_ad.
+Proof. vm_compute. reflexivity. Qed.
+Example Sep_ad : Sep h_ad.
+Proof. exact (run_Sep idn default_cfg ops_ad empty_heap h_ad Sep_empty h_ad_run). Qed.
+Example abs_ad :
+  map (fun a => (q_of h_ad a, sp_val h_ad a, sp_of h_ad a)) [0;1;2]%nat =
+  [(Some (Some [121;61;50;38;100;61;52]), Some (Some [([121],[50]); ([100],[52])]), Some 0%nat);
+   (Some (Some []), Some (Some []), Some 1%nat);
+   (Some (Some []), Some (Some []), Some 2%nat)].
+Proof. vm_compute. reflexivity. Qed.
+(* the handle Url 0 handed out before the two SetSearchParams calls is still its handle (handle_stability) *)
+Example handle_ad : sp_of (the (run0 (firstn 3 ops_ad))) 0%nat = Some 0%nat /\ sp_of h_ad 0%nat = Some 0%nat.
+Proof. split; vm_compute; reflexivity. Qed.
+Example l1_ad : exists st, l1_run idn default_cfg empty_heap (fun _ => None, 0%nat) ops_ad = Some st /\ R h_ad st.
+Proof.
+  assert (HR : R empty_heap (fun _ => None, 0%nat)) by (split; intros; reflexivity).
+  pose proof (run_sim idn default_cfg ops_ad empty_heap _ Sep_empty HR) as X. rewrite h_ad_run in X.
+  destruct X as (st & L & R' & _). exists st. split; assumption.
 Qed.
 
 (* ---------- pairs as pointers: the value list in spobj is a sound abstraction ---------- *)
@@ -1805,9 +2008,12 @@ Proof. vm_compute. discriminate. Qed.
       reuse (`params[:0]`, `append`) is not modelled: `params` is never handed out.
    5. One parser (`c`) for all handles; the `parser *parser` field is not an object.
    6. The typed heap (one store per Go type) builds in that a *path is never a *Url.
-   7. SearchParams.Clone and Url.SetSearchParams are public and leave Sep
-      (public_SearchParams_Clone_leaves_Sep, public_SetSearchParams_leaves_Sep): the theorems cover the API
-      without these two.  NewUrl() (an empty Url for BasicParser) is not modelled.
+   7. SearchParams.Clone is public and leaves Sep (public_SearchParams_Clone_leaves_Sep): the theorems cover
+      the API without it.  Url.SetSearchParams left Sep too until 44c5d62 (D26: mutant_D26,
+      public_SetSearchParams_leaves_Sep); as repaired it is HAdopt and is covered - for an argument that is
+      some Url's u.SearchParams() (or that Url's own); a free-standing *SearchParams (NewSearchParams-style,
+      or the detached copy of SearchParams.Clone, or nil) as argument is not a `hop`.
+      NewUrl() (an empty Url for BasicParser) is not modelled.
    8. Getters do not appear: they are functions of `abs h a` (Model/Url.v), and u.SearchParams() - the one
       "getter" that writes - is h_searchparams. *)
 
@@ -1846,6 +2052,14 @@ Print Assumptions mutant_D10.
 Print Assumptions mutant_resolve_noclone.
 Print Assumptions public_SearchParams_Clone_leaves_Sep.
 Print Assumptions public_SetSearchParams_leaves_Sep.
+Print Assumptions adopt_spec.
+Print Assumptions l1_adopt_is_OSpAdopt.
+Print Assumptions mutant_D26.
+Print Assumptions adopt_repaired_ex.
+Print Assumptions Sep_ad.
+Print Assumptions abs_ad.
+Print Assumptions handle_ad.
+Print Assumptions l1_ad.
 Print Assumptions p_mutate_refines.
 Print Assumptions p_mutate_frame.
 Print Assumptions p_clone_spec.
